@@ -84,3 +84,14 @@ package mysql
 //@ define clusterOK(c *Cluster) = c.config != nil && c.logger != nil && c.dcs != nil && c.local != nil && nodeInv(c.local) && registryInv(c)
 //@ typeinv *mysql.Node nodeInv init mysql.NewNode
 //@ typeinv *mysql.Cluster clusterOK init mysql.NewCluster, (*mysql.Cluster).registerLocalNode, (*mysql.Cluster).VerifSetLocal
+
+// ---- C20: the host registry as seen by the manager ----------------------------------------------------------
+//@ define regd(c *Cluster, h string) = has(c.haNodes, h) || has(c.cascadeNodes, h)
+
+//@ func (*mysql.Cluster).AllNodeHosts
+//@   ensures C20.all_registered [C20]: forall k string :: contains(result, k) <==> regd(c, k)
+//@   loop 1 invariant seen: forall k string :: contains(hosts, k) <==> visited[k]
+//@   loop 2 invariant seen: forall k string :: contains(hosts, k) <==> (has(c.cascadeNodes, k) || visited$2[k])
+
+//@ func (*mysql.Cluster).Local
+//@   ensures C20.local [C20]: result == c.local
